@@ -273,6 +273,22 @@ func vfStrip(p string) string {
 	return filepath.Join(filepath.Base(filepath.Dir(filepath.Dir(p))), base)
 }
 
+// VfReserve takes (VfUnreserve returns) a reservation on the index, as an
+// in-flight request would hold it.
+func VfReserve(cc Cache, size int64) error {
+	c := vfUnwrap(cc)
+	c.mu.Lock()
+	defer c.mu.Unlock()
+	return c.lru.Reserve(size)
+}
+
+func VfUnreserve(cc Cache, size int64) error {
+	c := vfUnwrap(cc)
+	c.mu.Lock()
+	defer c.mu.Unlock()
+	return c.lru.Unreserve(size)
+}
+
 // VfDir returns the cache directory.
 func VfDir(cc Cache) string { return vfUnwrap(cc).dir }
 
